@@ -357,6 +357,23 @@ fn npm_failures(g: &ModuleGraph, npm_mode: u8, o: &mut Outcome) {
       }
     }
   }
+  // a types dependency or a source-map URL is a static request as well
+  for m in g.modules() {
+    let mut extra: Vec<&ModuleSpecifier> = Vec::new();
+    if let Some(td) = m.maybe_types_dependency() {
+      extra.extend(td.dependency.maybe_specifier());
+    }
+    if let Some(js) = m.js() {
+      if let Some(sm) = &js.maybe_source_map_dependency {
+        extra.extend(sm.dependency.maybe_specifier());
+      }
+    }
+    for t in extra {
+      if t.scheme() == "npm" {
+        edges.entry(t.clone()).or_default().0 += 1;
+      }
+    }
+  }
   let configured: BTreeSet<&ModuleSpecifier> = g
     .imports
     .values()
@@ -518,6 +535,10 @@ fn check_faulted(
       }
       // the only content-consuming request of that file
       if logf.iter().filter(|c| &c.spec == spec && c.cache != "only").count() != 1 {
+        continue;
+      }
+      // (a request that only caches the file as an asset consumes nothing)
+      if logf.iter().any(|c| &c.spec == spec && c.ensure_cached) {
         continue;
       }
       let Ok(url) = ModuleSpecifier::parse(spec) else { continue };
